@@ -84,3 +84,32 @@ pub fn memchr_simple(x: u8, text: &[u8]) -> Option<usize> {
     }
     None
 }
+
+/// stub for `core::str::<impl str>::find::<P>` at its ONLY instantiation in the kernel, P = char:
+/// same contract (byte index of the first occurrence), as a plain scan. std's implementation goes
+/// through CharSearcher -> memchr -> memcmp, whose loops CBMC unwinds to the global bound at every
+/// call (measured: out of 10 GB at 2 input characters).
+pub fn str_find_char<P: core::str::pattern::Pattern>(s: &str, pat: P) -> Option<usize> {
+    assert!(core::mem::size_of::<P>() == 4, "str_find_char stub: only the `char` instantiation is modelled");
+    let c: char = unsafe { core::mem::transmute_copy(&pat) };
+    core::mem::forget(pat);
+    let mut enc = [0u8; 4];
+    let e = c.encode_utf8(&mut enc).as_bytes();
+    let b = s.as_bytes();
+    let mut i = 0;
+    while i + e.len() <= b.len() {
+        let mut j = 0;
+        let mut eq = true;
+        while j < e.len() {
+            if b[i + j] != e[j] {
+                eq = false;
+            }
+            j += 1;
+        }
+        if eq {
+            return Some(i);
+        }
+        i += 1;
+    }
+    None
+}
